@@ -235,7 +235,7 @@ class ModelBase:
         if v is None:
             return v
         if v.ty in ('ndarray', 'DataFrame', 'list', 'dict'):
-            return v.w(store=f'attr:{ci.name}.{attr}')
+            return v.w(store=f'attr:{ci.name}.{attr}', fresh=None)
         return v
 
     def ext_base_init(self, interp, st, obj, ci, args, kwargs, node):
